@@ -96,6 +96,12 @@ def compare(c, exp, out):
         return [("rig", out.extra["rig_error"])]
     if out.cash is None:
         return [("failure", "the session could not be constructed: %s %s" % (out.failure, out.extra.get("construction_error")))]
+    if "static_universe_after" in out.extra:
+        conf = [sr.SYM[a] for a in sorted(c["entry"])]
+        for got in out.extra["static_universe_after"]:
+            if got != conf:
+                res.append(("static-universe", "after the backtest the static universe configured with %s yields %s" % (conf, got[:12])))
+                break
     exp_fail = None if err == 0 else (ERR[err], errt)
     if out.failure != exp_fail:
         res.append(("failure", "run ended with %s, expected %s %s" % (out.failure, exp_fail, out.extra.get("message", ""))))
@@ -175,7 +181,7 @@ OWN = {
     "C08": {"failure", "fill-times", "fill-quantities", "fill-price", "fill-commission", "cash", "holdings", "equity-values",
             "alloc-weights", "alloc-keys", "rebalance-instants", "equity-dates"},
     "C14": {"rebalance-instants", "fill-times", "equity-dates", "equity-values", "alloc-table", "frames"},
-    "C19": {"alloc-keys", "alloc-weights", "fill-quantities", "holdings", "fill-times"},
+    "C19": {"alloc-keys", "alloc-weights", "fill-quantities", "holdings", "fill-times", "static-universe"},
 }
 
 
